@@ -300,50 +300,7 @@ func (c *Ctx) c10ExpireAt() {
 
 func (c *Ctx) c10Views() {
 	r := c.R
-	// ts / tsTime
-	if _, paths, _, err := c.runFunc("ts", pw.Policy{}); err != nil {
-		r.Unknown("R10.5", "ts", err.Error())
-	} else {
-		ok := true
-		for _, p := range paths {
-			v := p.Ret[0]
-			if !(v.Kind == pw.KCall && v.Ev.Role == "Std:time.Time.UnixNano" && v.Ev.Recv != nil && v.Ev.Recv.Kind == pw.KParam) {
-				ok = false
-			}
-		}
-		if ok {
-			r.OK("R10.5", "ts", "t.UnixNano()")
-		} else {
-			r.Bad("R10.5", "ts", "shape", "-", "ts must be t.UnixNano()", nil)
-		}
-	}
-	if _, paths, _, err := c.runFunc("tsTime", pw.Policy{}); err != nil {
-		r.Unknown("R10.5", "tsTime", err.Error())
-	} else {
-		ok := len(paths) > 0
-		for _, p := range paths {
-			v := p.Ret[0]
-			good := v.Kind == pw.KCall && v.Ev.Role == "Std:time.Unix" && len(v.Ev.Args) == 2
-			if good {
-				a, b := v.Ev.Args[0], v.Ev.Args[1]
-				good = a.Kind == pw.KArith && a.Op == token.QUO && b.Kind == pw.KArith && b.Op == token.REM &&
-					a.Src == b.Src && a.Src.Kind == pw.KParam
-				if good {
-					ca, oka := poly.Of(a.Src2, nil).IsConst()
-					cb, okb := poly.Of(b.Src2, nil).IsConst()
-					good = oka && okb && ca.Cmp(big.NewRat(1000000000, 1)) == 0 && cb.Cmp(ca) == 0
-				}
-			}
-			if !good {
-				ok = false
-			}
-		}
-		if ok {
-			r.OK("R10.5", "tsTime", "time.Unix(ns/1e9, ns%1e9): inverse of UnixNano")
-		} else {
-			r.Bad("R10.5", "tsTime", "shape", "-", "tsTime must be time.Unix(ns/1e9, ns%1e9), the inverse of ts (also for ns = 0: the value Walk reports must be the one ExpiredAt reports)", nil)
-		}
-	}
+	c.c10TsInverse()
 	for _, acc := range []string{"TraitEntry.ExpireAt", "TraitEntryOf.ExpireAt", "errExpired.ExpiredAt", "errExpiredOf.ExpiredAt"} {
 		_, paths, _, err := c.runFunc(acc, pw.Policy{})
 		if err != nil {
@@ -399,6 +356,54 @@ func (c *Ctx) c10Views() {
 			r.Unknown("R10.5", "shardedMapLegacyWalkerOf.Walk", "no callback invocation found")
 		} else if !bad {
 			r.OK("R10.5", "shardedMapLegacyWalkerOf.Walk", "K, V, E copied from the iterated entry")
+		}
+	}
+}
+
+// c10TsInverse: ts is UnixNano and tsTime its inverse.
+func (c *Ctx) c10TsInverse() {
+	r := c.R
+	if _, paths, _, err := c.runFunc("ts", pw.Policy{}); err != nil {
+		r.Unknown("R10.5", "ts", err.Error())
+	} else {
+		ok := true
+		for _, p := range paths {
+			v := p.Ret[0]
+			if !(v.Kind == pw.KCall && v.Ev.Role == "Std:time.Time.UnixNano" && v.Ev.Recv != nil && v.Ev.Recv.Kind == pw.KParam) {
+				ok = false
+			}
+		}
+		if ok {
+			r.OK("R10.5", "ts", "t.UnixNano()")
+		} else {
+			r.Bad("R10.5", "ts", "shape", "-", "ts must be t.UnixNano()", nil)
+		}
+	}
+	if _, paths, _, err := c.runFunc("tsTime", pw.Policy{}); err != nil {
+		r.Unknown("R10.5", "tsTime", err.Error())
+	} else {
+		ok := len(paths) > 0
+		for _, p := range paths {
+			v := p.Ret[0]
+			good := v.Kind == pw.KCall && v.Ev.Role == "Std:time.Unix" && len(v.Ev.Args) == 2
+			if good {
+				a, b := v.Ev.Args[0], v.Ev.Args[1]
+				good = a.Kind == pw.KArith && a.Op == token.QUO && b.Kind == pw.KArith && b.Op == token.REM &&
+					a.Src == b.Src && a.Src.Kind == pw.KParam
+				if good {
+					ca, oka := poly.Of(a.Src2, nil).IsConst()
+					cb, okb := poly.Of(b.Src2, nil).IsConst()
+					good = oka && okb && ca.Cmp(big.NewRat(1000000000, 1)) == 0 && cb.Cmp(ca) == 0
+				}
+			}
+			if !good {
+				ok = false
+			}
+		}
+		if ok {
+			r.OK("R10.5", "tsTime", "time.Unix(ns/1e9, ns%1e9): inverse of UnixNano")
+		} else {
+			r.Bad("R10.5", "tsTime", "shape", "-", "tsTime must be time.Unix(ns/1e9, ns%1e9), the inverse of ts (also for ns = 0: the value Walk reports must be the one ExpiredAt reports)", nil)
 		}
 	}
 }
